@@ -69,7 +69,10 @@ LLC::LLC(const uint8_t* buffer, uint32_t total_sz) {
 		// TODO: Create information fields if corresponding.
 	}
 	else {
-		type((Format)(*stream.pointer() & 0x03));
+		// Information frames are identified by the lowest bit alone (the next 
+		// bit already belongs to the send sequence number)
+		const uint8_t first_control_byte = *stream.pointer();
+		type((first_control_byte & 0x01) == 0 ? LLC::INFORMATION : LLC::SUPERVISORY);
 		control_field_length_ = 2;
 		stream.read(control_field.info);
 	}
